@@ -19,6 +19,9 @@ pub enum Case {
     /// a closure of `r` consecutive days from 1975-01-02 (r > 65 535: longer than a 16-bit day counter), adjusted
     /// from the days around its two ends and from its middle
     HugeRun { r: i64 },
+    /// a SETTLEMENT calendar closed on `r` consecutive days from 1799-01-02 under a business calendar without holidays
+    /// (seven-day week, or Monday-Friday): more than 100 000 business days without a settlement day
+    HugeSettle { r: i64, seven: bool },
 }
 
 pub const SMASKS: [Option<u8>; 5] = [None, Some(0b1100000), Some(0b0110000), Some(0b1000000), Some(0b0111111)];
@@ -251,6 +254,17 @@ pub fn check(case: &Case, idx: u64, acc: &mut Acc) {
             check_rolls(&c, &bm, z0 + r - 2, z0 + r + 3, "Cal/huge-run", case, idx, acc);
             acc.sample(|| serde_json::to_value(case).unwrap());
         }
+        Case::HugeSettle { r, seven } => {
+            let z0 = days_from_civil(1799, 1, 2);
+            let biz = Cal::new(vec![], if *seven { vec![] } else { vec![5, 6] });
+            let settle = Cal::new((0..*r).map(|i| to_ndt(z0 + i)).collect(), vec![]);
+            let u = UnionCal::new(vec![biz], Some(vec![settle]));
+            let bm = Bitmap::from_fn(z0 - 40, z0 + r + 40, |z| (*seven || weekday(z) < 5, !(z >= z0 && z < z0 + r)));
+            acc.nontrivial();
+            check_rolls(&u, &bm, z0 - 3, z0 + 2, "UnionCal/huge-settlement-closure", case, idx, acc);
+            check_rolls(&u, &bm, z0 + r - 2, z0 + r + 3, "UnionCal/huge-settlement-closure", case, idx, acc);
+            acc.sample(|| serde_json::to_value(case).unwrap());
+        }
         Case::Mask { mask, smask_idx } => {
             let z0 = days_from_civil(2024, 2, 26); // a Monday; the week crosses into March
             let wm: Vec<u8> = (0..7u8).filter(|i| mask & (1 << i) != 0).collect();
@@ -360,6 +374,8 @@ pub fn cases(tier: Tier) -> Vec<Case> {
             }
         }
     }
+    out.push(Case::HugeSettle { r: 100_100, seven: true });
+    out.push(Case::HugeSettle { r: 146_500, seven: false });
     for r in [65_535i64, 65_536, 65_600] {
         out.push(Case::HugeRun { r });
     }
@@ -395,7 +411,7 @@ pub fn run(ctx: &Ctx, replay_file: Option<String>) -> ! {
          split the N / B days), CalType and, for B-free words, Cal; month boundary after every position 0..W on three \
          anchors (leap Feb->Mar, common Feb->Mar, Dec->Jan); every date of the window +-2, 5 modifiers, both \
          settlement flags. (2) all 14 built-in calendars and 5 named unions over EVERY date 1970-2200 (the piped ones also wrapped in the CalType container over 2015-2035, judged against the named calendar's own predicates). (3) all 127 \
-         week masks x 5 settlement masks x every holiday subset of one week (the holiday-free ones also with dates that carry a time of day) (for an eighth of the subsets also as a union whose two members and two settlement calendars each close only some of the weekdays, in both listing orders). (4) long runs of 12..70 and of 365, 366, 367, 400, 430, 800 consecutive closures (and, from the days around the ends and the middle only, of 65 535, 65 536 and 65 600) \
+         week masks x 5 settlement masks x every holiday subset of one week (the holiday-free ones also with dates that carry a time of day) (for an eighth of the subsets also as a union whose two members and two settlement calendars each close only some of the weekdays, in both listing orders). (4) long runs of 12..70 and of 365, 366, 367, 400, 430, 800 consecutive closures (and, from the days around the ends and the middle only, of 65 535, 65 536 and 65 600; and settlement calendars closed for 100 100 / 146 500 days under a seven-day / five-day business week, i.e. beyond 100 000 business days) \
          at every alignment against two month ends, with and without settlement closures right after the run. Every adjustment is made through roll(modifier, settlement) and through the named method behind it; the five predicates are checked for mutual consistency on every date. Oracle: linear searches on a bitmap of \
          the calendar's definition (the word / the week masks and holidays) - for the named calendars, of their own \
          is_bus_day / is_settlement: following = first eligible >= d, previous = last eligible \
